@@ -82,7 +82,7 @@ class Assertion:
             if op == PolicyOp.Policy_add:
                 self.add_conditional_role_link(rule, domain_rule)
             elif op == PolicyOp.Policy_remove:
-                self.cond_rm.delete_link(rule[0], rule[1], *rule[2:])
+                self.cond_rm.delete_link(rule[0], rule[1], *domain_rule)
             else:
                 raise TypeError("Invalid operation: " + str(op))
 
